@@ -38,6 +38,16 @@ Proof.
   - (* CCloseBegin *)
     destruct (step_r v (inner s) RCloseCh) as [x|] eqn:Ex; inv H.
     exists [RCloseCh]. cbn [run_r]. rewrite Ex. reflexivity.
+  - (* CAddCheck *)
+    destruct (c_running s).
+    + inv H. exists []. reflexivity.
+    + destruct (step_r v (inner s) (RAddCheck b)) as [x|] eqn:Ex; inv H.
+      exists [RAddCheck b]. cbn [run_r]. rewrite Ex. reflexivity.
+  - (* CAddAppend *)
+    destruct (nth_error (cadds s) k) as [[|a]|]; try discriminate.
+    destruct (lock_held s); try discriminate.
+    destruct (step_r v (inner s) (RAddAppend a)) as [x|] eqn:Ex; inv H.
+    exists [RAddAppend a]. cbn [run_r]. rewrite Ex. reflexivity.
 Qed.
 
 Lemma run_c_inner v es : forall s s',
@@ -257,17 +267,17 @@ Proof.
     assert (Hre : reterr s = []) by (apply (ci_reterr _ _ _ _ H); rewrite Hpc; cbn; tauto).
     cbn [run_c step_c step_r].
     cbn [closes w_closes w_inner inner c_running c_closing c_stopped closers c_pc c_procs fch_closed
-         timer_fired fired_early fatal_count tie reterr addcl run_rejected].
+         timer_fired fired_early fatal_count tie reterr addcl run_rejected cadds].
     rewrite nth_error_app_len.
     cbn [closes w_closes w_inner inner c_running c_closing c_stopped closers c_pc c_procs fch_closed
-         timer_fired fired_early fatal_count tie reterr addcl run_rejected].
+         timer_fired fired_early fatal_count tie reterr addcl run_rejected cadds].
     rewrite Hr.
     rewrite (nth_error_upd_same _ (fun _ => KB) _ _ (nth_error_app_len (closes s) KA)).
     cbn [closes w_closes w_inner inner c_running c_closing c_stopped closers c_pc c_procs fch_closed
-         timer_fired fired_early fatal_count tie reterr addcl run_rejected].
+         timer_fired fired_early fatal_count tie reterr addcl run_rejected cadds].
     eexists. split; [reflexivity|].
     cbn [closes w_closes w_inner inner c_running c_closing c_stopped closers c_pc c_procs fch_closed
-         timer_fired fired_early fatal_count tie reterr addcl run_rejected].
+         timer_fired fired_early fatal_count tie reterr addcl run_rejected cadds].
     split.
     + rewrite Hre. erewrite nth_error_upd_same; [reflexivity|].
       erewrite nth_error_upd_same; [reflexivity|]. apply nth_error_app_len.
@@ -299,4 +309,188 @@ Example full_run :
                    CCloseBegin; CCloseStep 1; CCloseStep 1] = Some s /\
             c_pc s = CDone [5%Z; 9%Z] /\
             closes s = [KRet [5%Z; 9%Z]; KRet [5%Z; 9%Z]].
+Proof. eexists. split; [vm_compute; reflexivity|]. split; reflexivity. Qed.
+
+(* ------------------------------------------------------------------------------------------ *)
+(* managers assembled through RunnerCloserManager.Add *)
+
+(* after the start Add is refused, and nothing else changes *)
+Lemma cm_add_after_start_refused : forall v grace bs cls es s b,
+  run_c v (new_cm grace bs cls) es = Some s -> c_running s = true ->
+  step_c v s (CAddCheck b) = Some (w_cadds s (cadds s ++ [CARefused])).
+Proof. intros v grace bs cls es s b _ Hr. cbn [step_c]. rewrite Hr. reflexivity. Qed.
+
+(* before the start (nobody has called Run or Close) Add goes through: the runner is appended to
+   the inner manager's slice and the call returns nil *)
+Lemma rm_add_before_start v x b :
+  r_running x = false ->
+  exists x1 x2, step_r v x (RAddCheck b) = Some x1 /\
+                step_r v x1 (RAddAppend (length (r_adds x))) = Some x2 /\
+                r_runners x2 = r_runners x ++ [b] /\
+                nth_error (r_adds x2) (length (r_adds x)) = Some (AAccepted b).
+Proof.
+  intro Hr. cbn [step_r]. rewrite Hr. eexists. eexists. split; [reflexivity|].
+  cbn [step_r r_adds r_running r_runners]. rewrite nth_error_app_len, andb_false_r.
+  split; [reflexivity|]. cbn [r_runners r_adds]. split; [reflexivity|].
+  erewrite nth_error_upd_same; [reflexivity|]. apply nth_error_app_len.
+Qed.
+
+Lemma cm_add_before_start_accepted : forall v grace bs cls es s b,
+  run_c v (new_cm grace bs cls) es = Some s -> c_running s = false ->
+  exists s1 s2, step_c v s (CAddCheck b) = Some s1 /\
+                step_c v s1 (CAddAppend (length (cadds s))) = Some s2 /\
+                r_runners (inner s2) = r_runners (inner s) ++ [b] /\
+                nth_error (r_adds (inner s2)) (length (r_adds (inner s))) = Some (AAccepted b).
+Proof.
+  intros v grace bs cls es s b H Hr. apply cinv_reach in H.
+  destruct (ci_notrun _ _ _ _ H Hr) as [Hpc _].
+  destruct (ci_inner_idle _ _ _ _ H (or_introl Hpc)) as [_ Hir].
+  destruct (rm_add_before_start v (inner s) b Hir) as [x1 [x2 [E1 [E2 [Hrun Hadd]]]]].
+  cbn [step_c]. rewrite Hr, E1. eexists. eexists. split; [reflexivity|].
+  cbn [step_c cadds w_cadds w_inner inner]. rewrite nth_error_app_len.
+  unfold lock_held. cbn [c_pc w_cadds w_inner]. rewrite Hpc. rewrite E2.
+  split; [reflexivity|]. cbn [inner w_inner]. auto.
+Qed.
+
+(* The Close-watching runner.  On the fixed code, once Run has set the inner manager going, the
+   inner manager is running and its runner slice is either empty or contains the close-runner. *)
+Definition after_setup (pc : cpc) : Prop :=
+  match pc with CIdle | CStarted => False | _ => True end.
+
+Definition winv (s : cstate) : Prop :=
+  after_setup (c_pc s) ->
+  r_running (inner s) = true /\
+  (r_runners (inner s) = [] \/ In CloseRunner (r_runners (inner s))).
+
+Lemma step_r_fixed_keeps x ev y :
+  step_r Fixed x ev = Some y -> r_running x = true ->
+  r_running y = true /\ r_runners y = r_runners x.
+Proof.
+  intros H Hr. destruct ev; cbn [step_r] in H; rewrite ?Hr in H; cbn [is_fixed andb] in H;
+    repeat match type of H with
+           | context [match ?x with _ => _ end] => destruct x; try discriminate
+           end; inv H; cbn; auto.
+Qed.
+
+Ltac split_all H :=
+  repeat match type of H with
+         | context [match ?x with _ => _ end] => destruct x eqn:?; try discriminate
+         | context [if ?b then _ else _] => destruct b eqn:?; try discriminate
+         end.
+
+(* events that leave the inner manager and Run's program counter alone *)
+Ltac same_inner H W s0 :=
+  match type of H with
+  | _ = Some ?s1 =>
+      let Hk := fresh "Hk" in
+      assert (Hk : inner s1 = inner s0 /\ c_pc s1 = c_pc s0)
+        by (split_all H; inv H; cbn; split; reflexivity);
+      destruct Hk as [Hk1 Hk2]; rewrite Hk1, Hk2; exact W
+  end.
+
+Lemma winv_step grace bs s e s' :
+  cinv Fixed grace bs s -> winv s -> step_c Fixed s e = Some s' -> winv s'.
+Proof.
+  intros I W H. unfold winv in *.
+  destruct e; cbn [step_c] in H.
+  - (* CRunCas *)
+    destruct (c_running s) eqn:Er; inv H; cbn; auto. tauto.
+  - (* CSetup *)
+    destruct (c_pc s) eqn:Epc; try discriminate.
+    destruct (ci_inner_idle _ _ _ _ I (or_intror Epc)) as [_ Hir].
+    intros _. destruct (r_runners (inner s)) as [|b0 t] eqn:Ern.
+    + destruct (step_r Fixed (inner s) RRunCas) as [y|] eqn:Ey; inv H.
+      cbn [step_r] in Ey. rewrite Hir in Ey. inv Ey. cbn. rewrite Ern. auto.
+    + cbn [step_r] in H. rewrite Hir in H. cbn [r_adds] in H. rewrite nth_error_app_len in H.
+      cbn [r_running is_fixed andb r_runners] in H. inv H. cbn. split; auto. right.
+      rewrite Ern. apply in_or_app. right. left. reflexivity.
+  - (* CInner *)
+    destruct (inner_allowed e); try discriminate.
+    destruct (step_r Fixed (inner s) e) as [x|] eqn:Ex; inv H. cbn.
+    intro Ha. destruct (W Ha) as [Hr Hw]. destruct (step_r_fixed_keeps _ _ _ Ex Hr) as [Hr' ->]. auto.
+  - destruct (c_pc s) eqn:Epc; try discriminate. destruct (r_pc (inner s)); try discriminate.
+    inv H. cbn. intros _. apply W. exact Logic.I.
+  - same_inner H W s.
+  - same_inner H W s.
+  - same_inner H W s.
+  - same_inner H W s.
+  - same_inner H W s.
+  - same_inner H W s.
+  - destruct (c_pc s) eqn:Epc; try discriminate.
+    split_all H. inv H. cbn. intros _. apply W. exact Logic.I.
+  - destruct (c_pc s) eqn:Epc; try discriminate.
+    destruct (i <=? n)%nat; inv H. cbn. intros _. apply W. exact Logic.I.
+  - (* CCloseBegin *)
+    destruct (step_r Fixed (inner s) RCloseCh) as [x|] eqn:Ex; inv H. cbn.
+    intro Ha. destruct (W Ha) as [Hr Hw]. destruct (step_r_fixed_keeps _ _ _ Ex Hr) as [Hr' ->]. auto.
+  - (* CCloseStep *)
+    same_inner H W s.
+  - inv H. cbn. auto.
+  - same_inner H W s.
+  - (* CAddCheck *)
+    destruct (c_running s) eqn:Er.
+    + inv H. cbn. auto.
+    + destruct (ci_notrun _ _ _ _ I Er) as [Hpc _].
+      destruct (step_r Fixed (inner s) (RAddCheck b)); inv H. cbn. rewrite Hpc. cbn. tauto.
+  - (* CAddAppend *)
+    destruct (nth_error (cadds s) k) as [[|a]|]; try discriminate.
+    destruct (lock_held s); try discriminate.
+    destruct (step_r Fixed (inner s) (RAddAppend a)) as [x|] eqn:Ex; inv H. cbn.
+    intro Ha. destruct (W Ha) as [Hr Hw]. destruct (step_r_fixed_keeps _ _ _ Ex Hr) as [Hr' ->]. auto.
+Qed.
+
+Lemma winv_run grace bs es : forall s s',
+  cinv Fixed grace bs s -> winv s -> run_c Fixed s es = Some s' -> winv s'.
+Proof.
+  induction es as [|e es IH]; intros s s' Ci W H; cbn in H.
+  - inv H; auto.
+  - destruct (step_c Fixed s e) as [s1|] eqn:E; try discriminate.
+    apply (IH s1 s'); auto.
+    + eapply cinv_step; eauto.
+    + eapply winv_step; eauto.
+Qed.
+
+(* CLOSE REACHES THE RUNNERS (fixed code; managers assembled through the constructor, through Add, or
+   both).  Whenever runner goroutines exist, one of them is the close-runner; while it runs, a
+   closed closeCh lets it return - which (C12_cancel_on_first_return, through
+   C12_inner_is_runner_manager) cancels the context of all the others. *)
+Lemma cm_close_reaches_runners : forall grace bs cls es s,
+  run_c Fixed (new_cm grace bs cls) es = Some s ->
+  r_procs (inner s) <> [] ->
+  exists i p, nth_error (r_procs (inner s)) i = Some p /\ p_beh p = CloseRunner /\
+    (p_st p = Running -> r_closech (inner s) = true ->
+       exists s', step_c Fixed s (CInner (RRunnerReturn i)) = Some s').
+Proof.
+  intros grace bs cls es s H Hne.
+  assert (Ci : cinv Fixed grace bs s) by (eapply cinv_reach; eauto).
+  assert (W : winv s).
+  { eapply winv_run; [apply cinv_init | | exact H]. unfold winv. cbn. tauto. }
+  pose proof (ci_inner _ _ _ _ Ci) as Ii.
+  assert (Hsp : spawned_pc (r_pc (inner s))).
+  { destruct (r_pc (inner s)) eqn:Epc; cbn; auto;
+      exfalso; apply Hne; apply (i_noprocs _ _ _ Ii); auto. }
+  assert (Ha : after_setup (c_pc s)).
+  { destruct (c_pc s) eqn:Epc; cbn; auto.
+    - destruct (ci_inner_idle _ _ _ _ Ci (or_introl Epc)) as [Hi _]. rewrite Hi in Hsp. exact Hsp.
+    - destruct (ci_inner_idle _ _ _ _ Ci (or_intror Epc)) as [Hi _]. rewrite Hi in Hsp. exact Hsp. }
+  destruct (W Ha) as [_ Hw].
+  destruct (i_snap _ _ _ Ii Hsp) as [tl [E Hf]]. rewrite (Hf eq_refl), app_nil_r in E.
+  destruct Hw as [Hw|Hw].
+  - exfalso. apply Hne. rewrite E in Hw. destruct (r_procs (inner s)); [reflexivity|discriminate].
+  - rewrite E in Hw. apply in_map_iff in Hw. destruct Hw as [p [Hb Hp]].
+    destruct (In_nth_error _ _ Hp) as [i Hi]. exists i, p. split; [auto|]. split; [auto|].
+    intros Hst Hch. cbn [step_c inner_allowed step_r]. rewrite Hi, Hst.
+    unfold may_return. rewrite Hb, Hch, orb_true_r. eauto.
+Qed.
+
+(* non-vacuity: a manager built EMPTY, runners registered through Add, Close during Run *)
+Example close_reaches_added_runners :
+  exists s, run_c Fixed (new_cm false [] [None])
+                  [CAddCheck (OnCancel (Some 5%Z)); CAddAppend 0; CAddCheck CtxErr; CAddAppend 1;
+                   CRunCas; CSetup; CInner RSpawn; CCloseBegin; CCloseStep 0;
+                   CInner (RRunnerReturn 2); CInner (RCollect 2); CInner (RRunnerReturn 0);
+                   CInner (RRunnerReturn 1); CInner (RCollect 1); CInner (RCollect 0);
+                   CInner RRunReturn; CClosing; CCloserStart 0; CCloserReturn 0; CCloseFatalCh;
+                   CCollectCloser 0; CRunReturn; CCloseStep 0] = Some s /\
+            c_pc s = CDone [5%Z] /\ closes s = [KRet [5%Z]].
 Proof. eexists. split; [vm_compute; reflexivity|]. split; reflexivity. Qed.
